@@ -6,10 +6,12 @@ import (
 	"os"
 	"sort"
 	"strings"
+	"sync/atomic"
 	"time"
 
 	"github.com/plgd-dev/go-coap/v3/message"
 	"github.com/plgd-dev/go-coap/v3/message/codes"
+	"github.com/plgd-dev/go-coap/v3/message/noresponse"
 	"github.com/plgd-dev/go-coap/v3/message/pool"
 	"github.com/plgd-dev/go-coap/v3/net/responsewriter"
 	"github.com/plgd-dev/go-coap/v3/udp/client"
@@ -19,18 +21,37 @@ func init() { props["C05"] = runC05 }
 
 // one scripted event of a de-duplication history
 type c05Ev struct {
-	Kind    string // req | age | tick
+	Kind    string // req | age | tick | drop | ping | send
 	Typ     int
 	MID     int
 	Tok     []byte
 	Code    int
 	ReqOpts message.Options
-	Beh     string // none | resp
+	Beh     string // none | resp | msg | rst
 	RCode   int
 	ROpts   message.Options
 	PSalt   int
 	PLen    int
+	MTok    []byte // token of the replacement message (Beh = msg)
 	Ms      int
+}
+
+func c05Hex(s string) []byte {
+	var out []byte
+	for i := 0; i+1 < len(s); i += 2 {
+		var b int
+		fmt.Sscanf(s[i:i+2], "%x", &b)
+		out = append(out, byte(b))
+	}
+	return out
+}
+
+func dashOpts(o message.Options) string {
+	s := descOpts(o)
+	if s == "" {
+		return "-"
+	}
+	return s
 }
 
 func (e c05Ev) desc() string {
@@ -39,16 +60,18 @@ func (e c05Ev) desc() string {
 		return fmt.Sprintf("age:%d", e.Ms)
 	case "tick":
 		return "tick"
+	case "drop":
+		return fmt.Sprintf("drop:%d:%d", e.Typ, e.MID)
+	case "ping":
+		return fmt.Sprintf("ping:%d", e.MID)
+	case "send":
+		return fmt.Sprintf("send:%d:%x:%d:%s:%d:%d", e.Typ, e.Tok, e.RCode, dashOpts(e.ROpts), e.PSalt, e.PLen)
 	}
-	o := descOpts(e.ReqOpts)
-	if o == "" {
-		o = "-"
+	d := fmt.Sprintf("req:%d:%d:%x:%d:%s:%s:%d:%s:%d:%d", e.Typ, e.MID, e.Tok, e.Code, dashOpts(e.ReqOpts), e.Beh, e.RCode, dashOpts(e.ROpts), e.PSalt, e.PLen)
+	if e.Beh == "msg" {
+		d += fmt.Sprintf(":%x", e.MTok)
 	}
-	ro := descOpts(e.ROpts)
-	if ro == "" {
-		ro = "-"
-	}
-	return fmt.Sprintf("req:%d:%d:%x:%d:%s:%s:%d:%s:%d:%d", e.Typ, e.MID, e.Tok, e.Code, o, e.Beh, e.RCode, ro, e.PSalt, e.PLen)
+	return d
 }
 
 func parseC05Ev(s string) c05Ev {
@@ -60,20 +83,27 @@ func parseC05Ev(s string) c05Ev {
 		e.Kind, e.Ms = "age", atoi(f[1])
 	case "tick":
 		e.Kind = "tick"
+	case "drop":
+		e.Kind, e.Typ, e.MID = "drop", atoi(f[1]), atoi(f[2])
+	case "ping":
+		e.Kind, e.MID = "ping", atoi(f[1])
+	case "send":
+		e.Kind, e.Typ, e.Tok, e.RCode = "send", atoi(f[1]), c05Hex(f[2]), atoi(f[3])
+		e.ROpts = parseDescOpts(f[4])
+		e.PSalt, e.PLen = atoi(f[5]), atoi(f[6])
 	case "req":
 		e.Kind = "req"
 		e.Typ, e.MID = atoi(f[1]), atoi(f[2])
-		for i := 0; i+1 < len(f[3]); i += 2 {
-			var b int
-			fmt.Sscanf(f[3][i:i+2], "%x", &b)
-			e.Tok = append(e.Tok, byte(b))
-		}
+		e.Tok = c05Hex(f[3])
 		e.Code = atoi(f[4])
 		e.ReqOpts = parseDescOpts(f[5])
 		e.Beh = f[6]
 		e.RCode = atoi(f[7])
 		e.ROpts = parseDescOpts(f[8])
 		e.PSalt, e.PLen = atoi(f[9]), atoi(f[10])
+		if len(f) > 11 {
+			e.MTok = c05Hex(f[11])
+		}
 	}
 	return e
 }
@@ -92,16 +122,68 @@ func coqWireObs(ws []wireMsg) string {
 
 func coqByteList(b []byte) string { return coqBytes(b) }
 
+// coqBeh renders the handler behaviour of a request event as a Dedup.Model.behaviour.
+func (e c05Ev) coqBeh() string {
+	switch e.Beh {
+	case "resp":
+		return fmt.Sprintf("(BResp %d %s (gen_body %d %d%%nat))", e.RCode, coqOpts(e.ROpts), e.PSalt, e.PLen)
+	case "msg":
+		return fmt.Sprintf("(BMsg %d %s %s (gen_body %d %d%%nat))", e.RCode, coqBytes(e.MTok), coqOpts(e.ROpts), e.PSalt, e.PLen)
+	case "rst":
+		return "BRst"
+	}
+	return "BNone"
+}
+
+// c05Behave is the application handler for a request event:
+//
+//	none: returns without touching the response (a separate response is a later "send" event)
+//	resp: w.SetResponse(code, TextPlain, body, opts...)
+//	msg:  builds a message of its own from the pool and replaces the response with it (w.SetMessage)
+//	rst:  w.Message().SetType(message.Reset)
+func c05Behave(ev c05Ev) func(w *responsewriter.ResponseWriter[*client.Conn], r *pool.Message) {
+	return func(w *responsewriter.ResponseWriter[*client.Conn], r *pool.Message) {
+		switch ev.Beh {
+		case "resp":
+			if ev.PLen > 0 {
+				_ = w.SetResponse(codes.Code(ev.RCode), message.TextPlain, bytes.NewReader(genBody(ev.PSalt, ev.PLen)), ev.ROpts...)
+			} else {
+				_ = w.SetResponse(codes.Code(ev.RCode), message.TextPlain, nil, ev.ROpts...)
+			}
+		case "msg":
+			m := w.Conn().AcquireMessage(r.Context())
+			m.SetCode(codes.Code(ev.RCode))
+			m.SetToken(ev.MTok)
+			m.ResetOptionsTo(ev.ROpts)
+			if ev.PLen > 0 {
+				m.SetBody(bytes.NewReader(genBody(ev.PSalt, ev.PLen)))
+			}
+			w.SetMessage(m)
+		case "rst":
+			w.Message().SetType(message.Reset)
+		}
+	}
+}
+
 // runC05History executes one history on a fresh connection; returns the Coq text of the case.
 // perEventC05, when set (C12), is called after every event of a history has been fully processed.
 var perEventC05 func(i int, e c05Ev)
 
 func runC05History(evs []c05Ev, getMID int32) (string, bool) {
-	mc := newMemConn(memConnOpts{getMID: getMID, queueSize: 16, maxRetransmit: 4})
+	return runC05HistoryOn(evs, getMID, false)
+}
+
+func runC05HistoryOn(evs []c05Ev, getMID int32, dtls bool) (string, bool) {
+	// the request monitor (client.WithRequestMonitor) withholds exactly the message of a "drop" event
+	var dropNext atomic.Bool
+	monitor := client.WithRequestMonitor(func(_ *client.Conn, _ *pool.Message) (bool, error) {
+		return dropNext.CompareAndSwap(true, false), nil
+	})
+	mc := newMemConn(memConnOpts{getMID: getMID, queueSize: 16, maxRetransmit: 4, dtls: dtls, opts: []client.Option{monitor}})
 	defer mc.close()
 	own0 := mc.cc.VerifMsgID()
 	for _, e := range evs {
-		if e.Kind == "req" {
+		if e.Kind == "req" || e.Kind == "drop" || e.Kind == "ping" {
 			mc.avoidMID[e.MID] = true
 		}
 	}
@@ -125,25 +207,76 @@ func runC05History(evs []c05Ev, getMID int32) (string, bool) {
 				okRun = false
 			}
 			fmt.Fprintf(&sb, "HTick %s", coqWireObs(mc.takeOut()))
+		case "drop":
+			dropNext.Store(true)
+			mc.inject(encodeWire(e.Typ, 1, e.MID, []byte{0xd0}, nil, nil))
+			if !mc.sync() {
+				okRun = false
+			}
+			if dropNext.Load() { // the monitor never saw the message
+				okRun = false
+				dropNext.Store(false)
+			}
+			fmt.Fprintf(&sb, "HDrop %d %d %s %s", e.Typ, e.MID, coqBool(len(mc.takeLog()) > 0), coqWireObs(mc.takeOut()))
+		case "ping":
+			mc.inject(encodeWire(0, 0, e.MID, nil, nil, nil))
+			if !mc.sync() {
+				okRun = false
+			}
+			fmt.Fprintf(&sb, "HPing %d %s %s", e.MID, coqBool(len(mc.takeLog()) > 0), coqWireObs(mc.takeOut()))
+		case "send":
+			// the application sends a message of its own (a separate response carries the request's token)
+			m := mc.cc.AcquireMessage(mc.cc.Context())
+			m.SetCode(codes.Code(e.RCode))
+			m.SetToken(e.Tok)
+			m.SetType(message.Type(e.Typ))
+			m.ResetOptionsTo(e.ROpts)
+			if e.PLen > 0 {
+				m.SetBody(bytes.NewReader(genBody(e.PSalt, e.PLen)))
+			}
+			var out []wireMsg
+			if e.Typ == 0 {
+				// confirmable: WriteMessage returns once the peer has acknowledged the message
+				done := make(chan error, 1)
+				go func() { done <- mc.cc.WriteMessage(m) }()
+				if mc.waitOut(1, 3*time.Second) {
+					out = mc.takeOut()
+					if len(out) == 1 && !out[0].Bad {
+						mc.inject(encodeWire(2, 0, out[0].MID, nil, nil, nil))
+					}
+				} else {
+					okRun = false
+				}
+				select {
+				case err := <-done:
+					if err != nil {
+						okRun = false
+					}
+				case <-time.After(3 * time.Second):
+					okRun = false
+				}
+			} else {
+				if err := mc.cc.WriteMessage(m); err != nil {
+					okRun = false
+				}
+			}
+			mc.cc.ReleaseMessage(m)
+			if !mc.sync() {
+				okRun = false
+			}
+			out = append(out, mc.takeOut()...)
+			fmt.Fprintf(&sb, "HSend %d %s %d %s (gen_body %d %d%%nat) %s %s", e.Typ, coqBytes(e.Tok), e.RCode, coqOpts(e.ROpts), e.PSalt, e.PLen,
+				coqBool(len(mc.takeLog()) > 0), coqWireObs(out))
 		case "req":
 			ev := e
+			beh := c05Behave(ev)
 			mc.mu.Lock()
 			mc.behave = func(w *responsewriter.ResponseWriter[*client.Conn], r *pool.Message) {
 				if activeTracker != nil {
 					activeTracker.Hold(r)
 					defer activeTracker.Unhold(r)
 				}
-				if ev.Beh == "resp" {
-					var body *bytes.Reader
-					if ev.PLen > 0 {
-						body = bytes.NewReader(genBody(ev.PSalt, ev.PLen))
-					}
-					if body != nil {
-						_ = w.SetResponse(codes.Code(ev.RCode), message.TextPlain, body, ev.ROpts...)
-					} else {
-						_ = w.SetResponse(codes.Code(ev.RCode), message.TextPlain, nil, ev.ROpts...)
-					}
-				}
+				beh(w, r)
 			}
 			mc.mu.Unlock()
 			d := encodeWire(e.Typ, e.Code, e.MID, e.Tok, e.ReqOpts, nil)
@@ -153,11 +286,7 @@ func runC05History(evs []c05Ev, getMID int32) (string, bool) {
 			}
 			log := mc.takeLog()
 			out := mc.takeOut()
-			beh := "BNone"
-			if e.Beh == "resp" {
-				beh = fmt.Sprintf("(BResp %d %s (gen_body %d %d%%nat))", e.RCode, coqOpts(e.ROpts), e.PSalt, e.PLen)
-			}
-			fmt.Fprintf(&sb, "HReq %d %d %s %d %s %s %s %s", e.Typ, e.MID, coqBytes(e.Tok), e.Code, coqOpts(e.ReqOpts), beh, coqBool(len(log) > 0), coqWireObs(out))
+			fmt.Fprintf(&sb, "HReq %d %d %s %d %s %s %s %s", e.Typ, e.MID, coqBytes(e.Tok), e.Code, coqOpts(e.ReqOpts), e.coqBeh(), coqBool(len(log) > 0), coqWireObs(out))
 		}
 		if perEventC05 != nil {
 			perEventC05(i, e)
@@ -175,100 +304,165 @@ func c05Desc(evs []c05Ev, getMID int32) string {
 	return fmt.Sprintf("%d|%s", getMID, strings.Join(parts, " "))
 }
 
-// runC05Concurrent: k copies of one request are processed concurrently (one goroutine per received
-// message). The first copy's handler is held until all other copies have reached the per-message-ID
-// lock, then released. Reported as the history [Req; Req; ...] in the order the copies took the lock.
-func runC05Concurrent(ev c05Ev, k int, getMID int32) (string, bool) {
-	mc := newMemConn(memConnOpts{getMID: getMID, queueSize: 16, maxRetransmit: 4, perMessageGoroutine: true})
+// runC05Concurrent: for every request of reqs, copies[i] copies are processed concurrently (one goroutine per
+// received message). The requests have pairwise different message IDs. The handler of the first copy of
+// every request is held until every other copy holds or waits for its per-message-ID lock, then all are
+// released at once. Reported as the history [copies of reqs[0] ...; copies of reqs[1] ...; ...]: the copies of
+// one request in the order they took the lock (the first one ran the handler), the requests in the order
+// given - sections of different message IDs commute (Dedup/Conc.v), and with more than one request all
+// requests are confirmable, so that no reply carries an ID drawn from the connection's own counter.
+func runC05Concurrent(reqs []c05Ev, copies []int, getMID int32, dtls bool) (string, bool) {
+	mc := newMemConn(memConnOpts{getMID: getMID, queueSize: 16, maxRetransmit: 4, perMessageGoroutine: true, dtls: dtls})
 	defer mc.close()
 	own0 := mc.cc.VerifMsgID()
-	entered := make(chan struct{}, 8)
+	total := 0
+	for _, k := range copies {
+		total += k
+	}
+	entered := make(chan struct{}, 64)
 	gate := make(chan struct{})
+	byMID := map[int]c05Ev{}
+	for _, ev := range reqs {
+		byMID[ev.MID] = ev
+	}
 	mc.mu.Lock()
 	mc.behave = func(w *responsewriter.ResponseWriter[*client.Conn], r *pool.Message) {
 		entered <- struct{}{}
 		<-gate
-		if ev.Beh == "resp" {
-			var body *bytes.Reader
-			if ev.PLen > 0 {
-				body = bytes.NewReader(genBody(ev.PSalt, ev.PLen))
-				_ = w.SetResponse(codes.Code(ev.RCode), message.TextPlain, body, ev.ROpts...)
-			} else {
-				_ = w.SetResponse(codes.Code(ev.RCode), message.TextPlain, nil, ev.ROpts...)
-			}
-		}
+		c05Behave(byMID[int(r.MessageID())])(w, r)
 	}
 	mc.mu.Unlock()
-	d := encodeWire(ev.Typ, ev.Code, ev.MID, ev.Tok, ev.ReqOpts, nil)
 	ok := true
-	mc.inject(d)
-	select {
-	case <-entered:
-	case <-time.After(3 * time.Second):
-		ok = false
+	// first copies: wait until each one is inside the handler
+	for _, ev := range reqs {
+		mc.inject(encodeWire(ev.Typ, ev.Code, ev.MID, ev.Tok, ev.ReqOpts, nil))
 	}
-	for i := 1; i < k; i++ {
-		mc.inject(d)
+	for range reqs {
+		select {
+		case <-entered:
+		case <-time.After(3 * time.Second):
+			ok = false
+		}
 	}
-	// wait until every other copy holds or waits for the per-message-ID lock (or, in a broken
+	for i, ev := range reqs {
+		d := encodeWire(ev.Typ, ev.Code, ev.MID, ev.Tok, ev.ReqOpts, nil)
+		for c := 1; c < copies[i]; c++ {
+			mc.inject(d)
+		}
+	}
+	// wait until every other copy holds or waits for its per-message-ID lock (or, in a broken
 	// implementation, has entered the handler as well)
+	lockCount := func() int {
+		n := 0
+		for _, ev := range reqs {
+			n += mc.cc.VerifMsgIDLockCount(int32(ev.MID))
+		}
+		return n
+	}
 	deadline := time.Now().Add(3 * time.Second)
-	for mc.cc.VerifMsgIDLockCount(int32(ev.MID))+len(entered) < k && time.Now().Before(deadline) {
+	for lockCount()+len(entered) < total && time.Now().Before(deadline) {
 		time.Sleep(200 * time.Microsecond)
 	}
 	close(gate)
-	if !mc.s.waitOut(expectedReplies(ev, k), 3*time.Second) {
+	expected := 0
+	for i, ev := range reqs {
+		expected += expectedReplies(ev, copies[i])
+	}
+	if !mc.waitOut(expected, 3*time.Second) {
 		ok = false
 	}
 	// quiescence: no lock holder left
 	deadline = time.Now().Add(3 * time.Second)
-	for mc.cc.VerifMsgIDLockCount(int32(ev.MID)) > 0 && time.Now().Before(deadline) {
+	for lockCount() > 0 && time.Now().Before(deadline) {
 		time.Sleep(200 * time.Microsecond)
 	}
-	calls := len(mc.takeLog())
-	out := mc.takeOut()
+	log := mc.takeLog()
+	allOut := mc.takeOut()
 	var sb strings.Builder
 	fmt.Fprintf(&sb, "Hist %d [", own0)
-	beh := "BNone"
-	if ev.Beh == "resp" {
-		beh = fmt.Sprintf("(BResp %d %s (gen_body %d %d%%nat))", ev.RCode, coqOpts(ev.ROpts), ev.PSalt, ev.PLen)
-	}
-	// distribute the observed replies over the copies in emission order: a copy that produced no
-	// datagram gets the empty list (only possible for a NON request whose handler sets nothing)
-	per := len(out) / k
-	if per*k != len(out) || per > 1 {
-		per = -1
-	}
-	for i := 0; i < k; i++ {
-		if i > 0 {
-			sb.WriteString("; ")
-		}
-		var o []wireMsg
-		switch {
-		case per == 1:
-			o = out[i : i+1]
-		case per == 0:
-			o = nil
-		default:
-			if i == 0 {
-				o = out // irregular: attribute everything to the first copy so that the mismatch is visible
+	first := true
+	for ri, ev := range reqs {
+		k := copies[ri]
+		calls := 0
+		for _, l := range log {
+			if l.MID == ev.MID {
+				calls++
 			}
 		}
-		fmt.Fprintf(&sb, "HReq %d %d %s %d %s %s %s %s", ev.Typ, ev.MID, coqBytes(ev.Tok), ev.Code, coqOpts(ev.ReqOpts), beh, coqBool(i < calls), coqWireObs(o))
+		var out []wireMsg
+		if len(reqs) == 1 {
+			out = allOut
+		} else {
+			for _, w := range allOut {
+				if !w.Bad && w.MID == ev.MID {
+					out = append(out, w)
+				}
+			}
+		}
+		// distribute the observed replies over the copies: the reply of the copy that ran the handler
+		// first (with several requests it is recognised by not being re-addressed: a stored reply is sent
+		// as it was stored, so any order within one message ID shows the same datagrams), a copy that
+		// produced no datagram gets the empty list (only possible for a NON request whose handler sets nothing)
+		// the write happens after the lock is released, so a duplicate's datagram can overtake the first
+		// copy's: datagrams that are not of the shape of a re-addressed stored reply go first
+		hitTyp := 1
+		if ev.Typ == 0 {
+			hitTyp = 2
+		}
+		sort.SliceStable(out, func(a, b int) bool {
+			ha := !out[a].Bad && out[a].Typ == hitTyp && out[a].MID == ev.MID
+			hb := !out[b].Bad && out[b].Typ == hitTyp && out[b].MID == ev.MID
+			return !ha && hb
+		})
+		per := len(out) / k
+		if per*k != len(out) || per > 1 {
+			per = -1
+		}
+		for i := 0; i < k; i++ {
+			if !first {
+				sb.WriteString("; ")
+			}
+			first = false
+			var o []wireMsg
+			switch {
+			case per == 1:
+				o = out[i : i+1]
+			case per == 0:
+				o = nil
+			default:
+				if i == 0 {
+					o = out // irregular: attribute everything to the first copy so that the mismatch is visible
+				}
+			}
+			fmt.Fprintf(&sb, "HReq %d %d %s %d %s %s %s %s", ev.Typ, ev.MID, coqBytes(ev.Tok), ev.Code, coqOpts(ev.ReqOpts), ev.coqBeh(), coqBool(i < calls), coqWireObs(o))
+		}
 	}
 	sb.WriteString("]")
 	return sb.String(), ok
 }
 
+// expectedReplies: how many datagrams k concurrent copies of ev produce (used only to know how long to wait)
 func expectedReplies(ev c05Ev, k int) int {
-	if ev.Typ == 1 && ev.Beh != "resp" {
+	if ev.Typ == 0 {
+		return k // a confirmable request is always acknowledged
+	}
+	if ev.Beh == "none" {
 		return 0
+	}
+	if ev.Beh == "resp" {
+		if v, err := ev.ReqOpts.GetUint32(message.NoResponse); err == nil && noresponse.IsNoResponseCode(codes.Code(ev.RCode), v) != nil {
+			return 0 // suppressed by the No-Response option
+		}
 	}
 	return k
 }
 
-// genC05History draws one structured history (shared with C12).
-func genC05History(rng *Rng, tier string) ([]c05Ev, int32) {
+// genC05History draws one structured history of the original event set (shared with C12).
+func genC05History(rng *Rng, tier string) ([]c05Ev, int32) { return genC05HistoryX(rng, tier, false) }
+
+// genC05HistoryX: with ext, the history also contains the handler behaviours msg / rst and Empty-code
+// responses, request-monitor drops, pings and messages sent by the application (separate responses).
+func genC05HistoryX(rng *Rng, tier string, ext bool) ([]c05Ev, int32) {
 	respOptsPool := []message.Options{
 		nil,
 		{{ID: message.ETag, Value: []byte{1, 2, 3}}},
@@ -300,6 +494,34 @@ func genC05History(rng *Rng, tier string) ([]c05Ev, int32) {
 		} else {
 			ev.Beh = "none"
 		}
+		if ext {
+			switch r := rng.Intn(100); {
+			case r < 14: // the handler replaces the response message
+				if ev.Beh != "resp" {
+					ev.RCode = respCodes[rng.Intn(len(respCodes))]
+					ev.ROpts = respOptsPool[rng.Intn(len(respOptsPool))]
+					ev.PLen = []int{0, 0, 1, 5, 13, 40}[rng.Intn(6)]
+					ev.PSalt = rng.Intn(250)
+				}
+				ev.Beh = "msg"
+				switch rng.Intn(3) {
+				case 0:
+					ev.MTok = append([]byte{}, ev.Tok...)
+				case 1:
+					ev.MTok = []byte{byte(rng.U64()), 0x5e}
+				}
+				if rng.Chance(15) {
+					ev.RCode = 0
+				}
+			case r < 22: // Reset
+				ev.Beh, ev.RCode, ev.ROpts, ev.PLen, ev.PSalt = "rst", 0, nil, 0, 0
+			case r < 30: // response with the Empty code
+				ev.Beh, ev.RCode = "resp", 0
+				ev.ROpts = respOptsPool[rng.Intn(len(respOptsPool))]
+				ev.PLen = []int{0, 0, 5}[rng.Intn(3)]
+				ev.PSalt = rng.Intn(250)
+			}
+		}
 		return ev
 	}
 	getMID := int32([]int{0x1000, 0, 0x7fff, 0xffff, 0x8123}[rng.Intn(5)])
@@ -322,9 +544,13 @@ func genC05History(rng *Rng, tier string) ([]c05Ev, int32) {
 		return true
 	}
 	var last *c05Ev
+	pReq, pAge := 55, 85
+	if ext {
+		pReq, pAge = 50, 72
+	}
 	for len(evs) < k {
 		switch r := rng.Intn(100); {
-		case r < 55:
+		case r < pReq:
 			var ev c05Ev
 			if last != nil && rng.Chance(45) {
 				// a duplicate of an earlier request (same datagram), sometimes with another handler behaviour
@@ -335,7 +561,7 @@ func genC05History(rng *Rng, tier string) ([]c05Ev, int32) {
 				ev = prev
 				if rng.Chance(30) {
 					alt := mkReq(prev.Typ, prev.MID, getMID)
-					ev.Beh, ev.RCode, ev.ROpts, ev.PLen, ev.PSalt = alt.Beh, alt.RCode, alt.ROpts, alt.PLen, alt.PSalt
+					ev.Beh, ev.RCode, ev.ROpts, ev.PLen, ev.PSalt, ev.MTok = alt.Beh, alt.RCode, alt.ROpts, alt.PLen, alt.PSalt, alt.MTok
 				}
 				if rng.Chance(10) {
 					ev.Typ = 1 - ev.Typ
@@ -346,11 +572,37 @@ func genC05History(rng *Rng, tier string) ([]c05Ev, int32) {
 			evs = append(evs, ev)
 			last = &evs[len(evs)-1]
 			stamps = append(stamps, now)
-		case r < 85:
+		case r < pAge:
 			ms := []int{1000, 100000, 246000, 246600, 247500, 248000, 500, 123000, 124500, 300000}[rng.Intn(10)]
 			if usable(now + ms) {
 				now += ms
 				evs = append(evs, c05Ev{Kind: "age", Ms: ms})
+			}
+		case r < 85:
+			// ext only: the request monitor drops a (copy of a) message, a ping, or the application sends a
+			// separate response / a message of its own
+			switch q := rng.Intn(100); {
+			case q < 35:
+				ev := c05Ev{Kind: "drop", Typ: rng.Intn(2), MID: midPool[rng.Intn(len(midPool))]}
+				if last != nil && rng.Chance(60) {
+					ev.Typ, ev.MID = last.Typ, last.MID
+				}
+				evs = append(evs, ev)
+			case q < 55:
+				ev := c05Ev{Kind: "ping", MID: midPool[rng.Intn(len(midPool))]}
+				if last != nil && rng.Chance(40) {
+					ev.MID = last.MID
+				}
+				evs = append(evs, ev)
+			default:
+				ev := c05Ev{Kind: "send", Typ: rng.Intn(2), RCode: respCodes[rng.Intn(len(respCodes))], ROpts: respOptsPool[rng.Intn(len(respOptsPool))],
+					PLen: []int{0, 1, 5, 13}[rng.Intn(4)], PSalt: rng.Intn(250)}
+				if last != nil {
+					ev.Tok = append([]byte{}, last.Tok...) // separate response to the last request
+				} else {
+					ev.Tok = []byte{0x5e, 0x9a}
+				}
+				evs = append(evs, ev)
 			}
 		default:
 			evs = append(evs, c05Ev{Kind: "tick"})
@@ -363,106 +615,201 @@ func runC05(a runArgs) error {
 	e := NewEmitter("C05", "Dedup.Run")
 	e.Preamble = "From GoCoap Require Import Base.Bytes Dedup.Model Dedup.Spec."
 	e.ShardSize = 120
-	e.Rule = "histories of 3-12 events on a fresh udp/client.Conn over an in-memory session: CON/NON requests (message IDs from a small pool incl. 0, 65535 and IDs near the connection's own counter; random tokens; optional No-Response option) with handler behaviours none/response(code, options, payload), interleaved with Age (virtual time shifts of the response cache around the 247 s lifetime, never within 300 ms of a boundary) and housekeeping ticks. Distinct = distinct history; non-trivial = contains a duplicate (same message ID twice)."
+	e.Rule = "histories of 3-12 events on a fresh udp/client.Conn over an in-memory session and (a sample; ten times as many in the thorough tier) over a real dtls/server.Session on a scripted net.Conn: CON/NON requests (message IDs from a small pool incl. 0, 65535 and IDs near the connection's own counter; random tokens; optional No-Response option) with handler behaviours none / response(code incl. Empty, options, payload) / replaced response message (w.SetMessage, own token) / Reset, request-monitor drops, pings, messages sent by the application (separate responses, CON acknowledged by the harness / NON), interleaved with Age (virtual time shifts of the response cache around the 247 s lifetime, never within 300 ms of a boundary) and housekeeping ticks; plus concurrent families (one goroutine per received message): 2-4 copies of one request, and 2-3 copies each of two or three confirmable requests with different message IDs, first handlers held until all other copies wait on their locks. Distinct = distinct history; non-trivial = contains a duplicate (same message ID twice)."
 	rng := NewRng(a.seed)
 
-	emit := func(evs []c05Ev, getMID int32) {
+	emitOn := func(evs []c05Ev, getMID int32, dtls bool) {
 		start := time.Now()
-		txt, ok := runC05History(evs, getMID)
+		txt, ok := runC05HistoryOn(evs, getMID, dtls)
 		if time.Since(start) > 150*time.Millisecond || !ok {
 			// timing bracket too wide for the 300 ms margins (or a barrier timed out): run again once
 			start = time.Now()
-			txt, ok = runC05History(evs, getMID)
+			txt, ok = runC05HistoryOn(evs, getMID, dtls)
 			if time.Since(start) > 250*time.Millisecond {
 				e.Hist["slow_rerun"]++
 			}
 		}
 		dup := false
 		seen := map[int]bool{}
-		nreq := 0
+		buckets := []string{fmt.Sprintf("len%02d", len(evs))}
+		kinds := map[string]bool{}
 		for _, ev := range evs {
 			if ev.Kind == "req" {
-				nreq++
 				if seen[ev.MID] {
 					dup = true
 				}
 				seen[ev.MID] = true
+				kinds["beh="+ev.Beh] = true
+				if ev.Beh != "none" && ev.Beh != "rst" && ev.RCode == 0 {
+					kinds["beh=empty-code"] = true
+				}
+			} else {
+				kinds["ev="+ev.Kind] = true
 			}
 		}
+		for k := range kinds {
+			buckets = append(buckets, k)
+		}
+		sort.Strings(buckets)
+		buckets = append(buckets, fmt.Sprintf("dup=%v", dup))
 		if !ok {
 			e.Hist["barrier_timeout"]++
 		}
-		e.Add(txt, c05Desc(evs, getMID), dup, fmt.Sprintf("len%02d", len(evs)), fmt.Sprintf("dup=%v", dup))
+		desc := c05Desc(evs, getMID)
+		if dtls {
+			desc = "dtls#" + desc
+			buckets = append(buckets, "session=dtls")
+		}
+		e.Add(txt, desc, dup, buckets...)
 	}
+	emit := func(evs []c05Ev, getMID int32) { emitOn(evs, getMID, false) }
 
-	emitConc := func(ev c05Ev, k int, getMID int32) {
-		txt, ok := runC05Concurrent(ev, k, getMID)
+	emitConc := func(reqs []c05Ev, copies []int, getMID int32, dtls bool) {
+		txt, ok := runC05Concurrent(reqs, copies, getMID, dtls)
 		if !ok {
-			txt, ok = runC05Concurrent(ev, k, getMID)
+			txt, ok = runC05Concurrent(reqs, copies, getMID, dtls)
 		}
 		if !ok {
 			e.Hist["concurrent_timeout"]++
 		}
-		e.Add(txt, fmt.Sprintf("%d|conc:%d %s", getMID, k, ev.desc()), true, "concurrent", fmt.Sprintf("copies%d", k))
-	}
-	if strings.Contains(a.only, "|conc:") {
-		var getMID int32
-		parts := strings.SplitN(a.only, "|", 2)
-		fmt.Sscanf(parts[0], "%d", &getMID)
-		f := strings.Fields(parts[1])
-		var k int
-		fmt.Sscanf(f[0], "conc:%d", &k)
-		emitConc(parseC05Ev(f[1]), k, getMID)
-		return e.Flush(a.out)
+		parts := make([]string, 0, 2*len(reqs))
+		for i, ev := range reqs {
+			parts = append(parts, fmt.Sprintf("conc:%d", copies[i]), ev.desc())
+		}
+		desc := fmt.Sprintf("%d|%s", getMID, strings.Join(parts, " "))
+		bucket := "concurrent"
+		if len(reqs) > 1 {
+			bucket = "concurrent-mixed"
+		}
+		if dtls {
+			desc = "dtls#" + desc
+		}
+		e.Add(txt, desc, true, bucket, fmt.Sprintf("copies%d", copies[0]), fmt.Sprintf("requests%d", len(reqs)))
 	}
 	if a.only != "" {
+		only := a.only
+		dtls := strings.HasPrefix(only, "dtls#")
+		only = strings.TrimPrefix(only, "dtls#")
 		var getMID int32
-		parts := strings.SplitN(a.only, "|", 2)
+		parts := strings.SplitN(only, "|", 2)
 		fmt.Sscanf(parts[0], "%d", &getMID)
+		fields := strings.Fields(parts[1])
+		if strings.Contains(only, "conc:") {
+			var reqs []c05Ev
+			var copies []int
+			k := 1
+			for _, f := range fields {
+				if strings.HasPrefix(f, "conc:") {
+					fmt.Sscanf(f, "conc:%d", &k)
+					continue
+				}
+				ev := parseC05Ev(f)
+				if ev.Kind != "req" {
+					continue
+				}
+				reqs = append(reqs, ev)
+				copies = append(copies, k)
+				k = 1
+			}
+			if len(reqs) > 0 {
+				emitConc(reqs, copies, getMID, dtls)
+			}
+			return e.Flush(a.out)
+		}
 		var evs []c05Ev
-		for _, s := range strings.Fields(parts[1]) {
+		for _, s := range fields {
 			evs = append(evs, parseC05Ev(s))
 		}
-		emit(evs, getMID)
+		emitOn(evs, getMID, dtls)
 		return e.Flush(a.out)
 	}
 
-	// structured histories
-	n := 260
+	// structured histories: the original event set, and the extended one
+	n, nx := 300, 420
 	if a.tier == "thorough" {
-		n = 3000
+		n, nx = 1500, 2500
 	}
 	for c := 0; c < n; c++ {
-		evs, getMID := genC05History(rng, a.tier)
+		evs, getMID := genC05HistoryX(rng, a.tier, false)
+		emit(evs, getMID)
+	}
+	for c := 0; c < nx; c++ {
+		evs, getMID := genC05HistoryX(rng, a.tier, true)
 		emit(evs, getMID)
 	}
 	// concurrently processed copies (one goroutine per received message)
-	nconc := 24
-	if a.tier == "thorough" {
-		nconc = 200
-	}
-	for c := 0; c < nconc; c++ {
-		evs, getMID := genC05History(rng, "quick")
-		for _, ev := range evs {
-			if ev.Kind == "req" {
-				emitConc(ev, 2+rng.Intn(2), getMID)
-				break
+	firstReq := func(ext bool, conOnly bool, avoid map[int]bool) (c05Ev, int32) {
+		for {
+			evs, getMID := genC05HistoryX(rng, "quick", ext)
+			for _, ev := range evs {
+				if ev.Kind == "req" && !(conOnly && ev.Typ != 0) && !avoid[ev.MID] {
+					return ev, getMID
+				}
 			}
 		}
+	}
+	nconc, nmixed := 40, 30
+	if a.tier == "thorough" {
+		nconc, nmixed = 200, 150
+	}
+	for c := 0; c < nconc; c++ {
+		ev, getMID := firstReq(c%2 == 1, false, nil)
+		emitConc([]c05Ev{ev}, []int{2 + rng.Intn(3)}, getMID, false)
+	}
+	// copies of two or three confirmable requests with different message IDs, all concurrent
+	for c := 0; c < nmixed; c++ {
+		nreq := 2 + rng.Intn(2)
+		avoid := map[int]bool{}
+		var reqs []c05Ev
+		var copies []int
+		var getMID int32
+		for len(reqs) < nreq {
+			ev, g := firstReq(c%2 == 1, true, avoid)
+			if len(reqs) == 0 {
+				getMID = g
+			}
+			avoid[ev.MID] = true
+			reqs = append(reqs, ev)
+			copies = append(copies, 2+rng.Intn(2))
+		}
+		emitConc(reqs, copies, getMID, false)
 	}
 	// canonical witnesses, always present
 	tok := []byte{0xaa, 0xbb}
 	for _, typ := range []int{0, 1} {
-		for _, beh := range []string{"none", "resp"} {
-			r := c05Ev{Kind: "req", Typ: typ, MID: 77, Tok: tok, Code: 1, Beh: beh, RCode: 69, PLen: 5, PSalt: 3}
+		for _, beh := range []string{"none", "resp", "msg", "rst"} {
+			r := c05Ev{Kind: "req", Typ: typ, MID: 77, Tok: tok, Code: 1, Beh: beh, RCode: 69, PLen: 5, PSalt: 3, MTok: []byte{0xcc}}
+			if beh == "rst" || beh == "none" {
+				r.RCode, r.PLen, r.PSalt = 0, 0, 0
+			}
 			emit([]c05Ev{r, r, {Kind: "age", Ms: 246000}, r, {Kind: "age", Ms: 2000}, r, r}, 0x1000)
 			emit([]c05Ev{r, {Kind: "age", Ms: 248000}, {Kind: "tick"}, r, r}, 0x1000)
 		}
+		// separate response: the request is acknowledged (CON) / not answered (NON), the application sends the
+		// response later, duplicates before and after get the bare acknowledgement again
+		r := c05Ev{Kind: "req", Typ: typ, MID: 78, Tok: tok, Code: 1, Beh: "none"}
+		for _, styp := range []int{0, 1} {
+			s := c05Ev{Kind: "send", Typ: styp, Tok: tok, RCode: 69, PLen: 5, PSalt: 3}
+			emit([]c05Ev{r, r, s, r, {Kind: "age", Ms: 246000}, r, {Kind: "age", Ms: 2000}, r}, 0x1000)
+		}
+		// response with the Empty code; dropped copies; a ping with the request's message ID
+		z := c05Ev{Kind: "req", Typ: typ, MID: 79, Tok: tok, Code: 1, Beh: "resp", RCode: 0}
+		emit([]c05Ev{z, z, {Kind: "drop", Typ: typ, MID: 79}, {Kind: "ping", MID: 79}, z}, 0x1000)
+		emit([]c05Ev{{Kind: "drop", Typ: typ, MID: 80}, {Kind: "drop", Typ: typ, MID: 80}, {Kind: "req", Typ: typ, MID: 80, Tok: tok, Code: 1, Beh: "resp", RCode: 69}}, 0x1000)
 	}
-	sortKeys := make([]string, 0)
-	for k := range e.Hist {
-		sortKeys = append(sortKeys, k)
+	// the same histories on the second session type: a real dtls/server.Session over a scripted net.Conn
+	// (a sample in the quick tier)
+	ndtls, ndtlsConc := 60, 8
+	if a.tier == "thorough" {
+		ndtls, ndtlsConc = 600, 60
 	}
-	sort.Strings(sortKeys)
+	for c := 0; c < ndtls; c++ {
+		evs, getMID := genC05HistoryX(rng, "quick", c%2 == 1)
+		emitOn(evs, getMID, true)
+	}
+	for c := 0; c < ndtlsConc; c++ {
+		ev, getMID := firstReq(c%2 == 1, false, nil)
+		emitConc([]c05Ev{ev}, []int{2 + rng.Intn(3)}, getMID, true)
+	}
 	return e.Flush(a.out)
 }
